@@ -84,6 +84,10 @@ structure St where
   orphanStreams : Nat := 0
   /-- listeners whose stream has been closed without notifying them: the descriptor is gone from epoll, nothing can wake them -/
   orphanLis : Nat := 0
+  /-- signals with a handler function installed by os/sigaction: `janet_vm.signal_handlers`, each entry pinned by janet_gcroot -/
+  sigs : List Nat := []
+  /-- file watchers that are listening (`is_watching`): pinned by janet_watcher_listen until janet_watcher_unlisten -/
+  watching : Nat := 0
   deriving Repr
 
 def init : St := {}
@@ -124,6 +128,15 @@ inductive Ev
   | tpop (t : Timer)
   /-- close(2) in janet_stream_close_impl after the notifications; `orphans` fibers still have a callback installed on it -/
   | streamClosed (orphans : Nat)
+  /-- os.c os_sigaction: `if (old handler of sig is not nil) janet_gcunroot(old); if (handler) { janet_gcroot(handler); put } else put nil`.
+      The signal itself arrives as `post false` (janet_signal_trampoline → janet_ev_post_event) and `deliverPosted`
+      (janet_signal_callback schedules a new fiber running the handler: `sched`). -/
+  | sigaction (sig : Nat) (install : Bool)
+  /-- filewatch.c janet_watcher_listen: `janet_async_start_fiber(…)` (a separate `astart`) and `janet_gcroot(watcher)` -/
+  | watchListen
+  /-- filewatch.c janet_watcher_unlisten: `if (!is_watching) return; janet_stream_close(stream)` (separate `aend` / `streamClosed`)
+      and `janet_gcunroot(watcher)` -/
+  | watchUnlisten
   deriving Repr
 
 def step (cfg : Cfg) (s : St) : Ev → Option St
@@ -179,6 +192,11 @@ def step (cfg : Cfg) (s : St) : Ev → Option St
   | .tadd t => some { s with timers := t :: s.timers }
   | .tpop t => if t ∈ s.timers then some { s with timers := s.timers.erase t } else none
   | .streamClosed n => if s.orphanLis + n ≤ s.lis then some { s with orphanLis := s.orphanLis + n } else none
+  | .sigaction sig install =>
+    some { s with sigs := (if install then [sig] else []) ++ s.sigs.erase sig
+                  roots := s.roots - (if sig ∈ s.sigs then 1 else 0) + (if install then 1 else 0) }
+  | .watchListen => some { s with watching := s.watching + 1, roots := s.roots + 1 }
+  | .watchUnlisten => if s.watching = 0 then none else some { s with watching := s.watching - 1, roots := s.roots - 1 }
 
 def run (cfg : Cfg) : St → List Ev → Option St
   | s, [] => some s
@@ -321,7 +339,7 @@ def siteSpec (selfpipeDecNeedsCb : Bool) : List (String × String × String × L
 def staleLoopSpec : String :=
   "while((has_timeout=peek_timeout(&to))){if(to.curr_fiber!=((void*)0)){if(!janet_fiber_can_resume(to.curr_fiber)){if(to.has_worker){pthread_cancel(to.worker);void*res;pthread_join(to.worker,&res);}janet_table_remove(&janet_vm.active_tasks,janet_nanbox_from_pointer(((to.curr_fiber)),(((uint64_t)(JANET_FIBER)|0x1FFF0)<<47)));pop_timeout(0);continue;}}elseif(to.fiber->sched_id!=to.sched_id){pop_timeout(0);continue;}break;}"
 
-/-- root / unroot sites of event-loop operations, without the (tree dependent) release sites of the threaded-channel root -/
+/-- root / unroot sites of event-loop operations (ev.c, filewatch.c, os.c, net.c), without the (tree dependent) release sites of the threaded-channel root -/
 def rootSpec : List (String × String × String × String) := [
   ("ev.c", "janet_async_end", "unroot", "ABSTRACT:fiber->ev_stream"),
   ("ev.c", "janet_async_start_fiber", "root", "ABSTRACT:stream"),
@@ -330,12 +348,14 @@ def rootSpec : List (String × String × String × String) := [
   ("ev.c", "janet_ev_default_threaded_callback", "unroot", "FIBER:return_value.fiber"),
   ("ev.c", "janet_ev_threaded_await", "root", "FIBER:arguments.fiber"),
   ("ev.c", "janet_go_thread_subr", "root", "TABLE:janet_vm.abstract_registry"),
+  ("filewatch.c", "janet_watcher_listen", "root", "ABSTRACT:watcher"),                 -- watchListen
+  ("filewatch.c", "janet_watcher_unlisten", "unroot", "ABSTRACT:watcher"),             -- watchUnlisten
   ("os.c", "janet_proc_wait_cb", "unroot", "ABSTRACT:proc"),
   ("os.c", "janet_proc_wait_cb", "unroot", "FIBER:args.fiber"),
   ("os.c", "os_proc_wait_impl", "root", "ABSTRACT:proc"),
   ("os.c", "os_proc_wait_impl", "root", "FIBER:targs.fiber"),
-  ("os.c", "os_sigaction", "unroot", "oldhandler"),
-  ("os.c", "os_sigaction", "root", "handlerv")
+  ("os.c", "os_sigaction", "unroot", "oldhandler"),                                    -- sigaction
+  ("os.c", "os_sigaction", "root", "handlerv")                                         -- sigaction _ true
 ]
 
 def closeSpec (both : Bool) : List (String × List String) :=
